@@ -18,3 +18,20 @@ func Show(v any) string {
 func Make(tag string) Mid1 {
 	return Mid1{L: leaf.New(tag, len(tag)), Tag: tag}
 }
+
+// Scramble is rewritten by control-flow obfuscation when that is enabled.
+//
+//garble:controlflow flatten_passes=1 junk_jumps=2 block_splits=2
+func Scramble(n int) int {
+	acc := 1
+	for i := 0; i < n; i++ {
+		if i%3 == 0 {
+			acc += i * 7
+		} else if i%3 == 1 {
+			acc ^= i << 2
+		} else {
+			acc -= i
+		}
+	}
+	return acc
+}
